@@ -151,3 +151,161 @@ package kapacitor
 //@       (typeis(result0.stmt.Condition, *influxql.BinaryExpr) && as(result0.stmt.Condition, *influxql.BinaryExpr).Op == influxql.AND
 //@        && isTimeRange(as(result0.stmt.Condition, *influxql.BinaryExpr).RHS, result0)
 //@        && andSafe(as(result0.stmt.Condition, *influxql.BinaryExpr).LHS))
+
+// ---------------------------------------------------------------- alert.go (C01)
+
+// Predicate evaluation is assumed deterministic: a function of the expression, its scope pool
+// and the point (the node documentation itself says an expression "may or may not be evaluated").
+//@ func EvalPredicate
+//@   trusted
+//@   pure
+
+//@ spec alertNodeOK(n *AlertNode) bool = n != nil && len(n.levels) == 4 && len(n.scopePools) == 4 && len(n.levelResets) == 4 && len(n.lrScopePools) == 4
+
+// Level l's condition holds for the point.
+//@ spec levelSat(n *AlertNode, l int, p edge.FieldsTagsTimeGetter) bool = n.levels[l] != nil
+//@     && second(EvalPredicate(n.levels[l], n.scopePools[l], p)) == nil && first(EvalPredicate(n.levels[l], n.scopePools[l], p))
+
+// Greatest level in (b, a] whose condition holds, or -1 (levels are 0..3).
+//@ spec hiLevel(n *AlertNode, a int, b int, p edge.FieldsTagsTimeGetter) int =
+//@     ite(3 <= a && 3 > b && levelSat(n, 3, p), 3, ite(2 <= a && 2 > b && levelSat(n, 2, p), 2, ite(1 <= a && 1 > b && levelSat(n, 1, p), 1, -1)))
+
+// The reset expression of level cur is installed and evaluates to (false, nil): stay at cur.
+//@ spec resetHolds(n *AlertNode, cur int, p edge.FieldsTagsTimeGetter) bool = n.levelResets[cur] != nil
+//@     && second(EvalPredicate(n.levelResets[cur], n.lrScopePools[cur], p)) == nil && !first(EvalPredicate(n.levelResets[cur], n.lrScopePools[cur], p))
+
+// "the level attached to each data point is the highest severity whose condition holds (held
+// back by a reset condition when one is configured)".
+//@ spec specLevel(n *AlertNode, cur int, p edge.FieldsTagsTimeGetter) int =
+//@     ite(hiLevel(n, 3, max(cur-1, 0), p) != -1, hiLevel(n, 3, max(cur-1, 0), p),
+//@       ite(resetHolds(n, cur, p), cur,
+//@         ite(hiLevel(n, cur, 0, p) != -1, hiLevel(n, cur, 0, p), 0)))
+
+//@ func (*AlertNode).findFirstMatchLevel
+//@   props C01 C05
+//@   requires alertNodeOK(n) && 0 <= start && start <= 3 && stop <= 3
+//@   modifies nothing
+//@   ensures result1 ==> int(result0) == hiLevel(n, int(start), max(int(stop), 0), p) && result0 >= 1 && result0 <= start
+//@   ensures !result1 ==> hiLevel(n, int(start), max(int(stop), 0), p) == -1 && result0 == alert.OK
+//@   loop 1
+//@     modifies nothing
+//@     invariant 0 <= stop && stop <= 3 && l <= start && stop <= l || (start < stop && l == start)
+//@     invariant forall k int :: int(l) < k && k <= int(start) && k >= 1 ==> !levelSat(n, k, p)
+
+//@ func (*AlertNode).determineLevel
+//@   props C01 C05
+//@   requires alertNodeOK(n) && 0 <= currentLevel && currentLevel <= 3
+//@   modifies nothing
+//@   ensures int(result) == specLevel(n, int(currentLevel), p)
+//@   ensures 0 <= result && result <= 3
+
+// The documented worked example for reset expressions (pipeline/alert.go): thresholds
+// info>60 warn>70 crit>80, resets info<50 warn<60 crit<70 (hysteresis), values
+// 61 73 64 85 62 56 47 give INFO WARNING WARNING CRITICAL INFO INFO OK. Posed over the same
+// shape as specLevel with the predicates replaced by the comparisons.
+//@ spec exSat(l int, v int) bool = (l == 1 && v > 60) || (l == 2 && v > 70) || (l == 3 && v > 80)
+//@ spec exHi(a int, b int, v int) int = ite(3 <= a && 3 > b && exSat(3, v), 3, ite(2 <= a && 2 > b && exSat(2, v), 2, ite(1 <= a && 1 > b && exSat(1, v), 1, -1)))
+//@ spec exReset(cur int, v int) bool = (cur == 1 && !(v < 50)) || (cur == 2 && !(v < 60)) || (cur == 3 && !(v < 70))
+//@ spec exLevel(cur int, v int) int = ite(exHi(3, max(cur-1, 0), v) != -1, exHi(3, max(cur-1, 0), v), ite(exReset(cur, v), cur, ite(exHi(cur, 0, v) != -1, exHi(cur, 0, v), 0)))
+//@ lemma workedExample props C01: exLevel(0, 61) == 1 && exLevel(1, 73) == 2 && exLevel(2, 64) == 2 && exLevel(2, 85) == 3
+//@     && exLevel(3, 62) == 1 && exLevel(1, 56) == 1 && exLevel(1, 47) == 0
+
+//@ spec alertStateOK(a *alertState) bool = a != nil && a.n != nil && a.n.a != nil && a.n.a.AlertNodeData != nil && alertNodeOK(a.n)
+//@     && (forall i int :: 0 <= i && i < len(a.inhibitors) ==> a.inhibitors[i] != nil)
+//@     && len(a.history) >= 1 && 0 <= a.idx && a.idx < len(a.history)
+//@     && (forall i int :: 0 <= i && i < len(a.history) ==> 0 <= a.history[i] && a.history[i] <= 3)
+
+//@ func (*alertState).currentLevel
+//@   props C01 C05
+//@   requires alertStateOK(a)
+//@   pure
+//@   ensures result == a.history[a.idx]
+
+//@ func (*alertState).duration
+//@   props C01
+//@   pure
+//@   ensures time.Time(result) == a.lastTriggered - a.firstTriggered
+
+//@ func (*alertState).percentChange
+//@   props C01 C05
+//@   requires alertStateOK(a)
+//@   modifies nothing
+//@   loop 1
+//@     modifies nothing
+//@     invariant 0 <= i && l == len(a.history)
+
+//@ func (*alertState).updateFlapping
+//@   props C01 C05
+//@   requires alertStateOK(a)
+//@   modifies a.flapping
+//@   ensures !a.n.a.UseFlapping ==> a.flapping == old(a.flapping)
+
+// "with state-changes-only, only when the level differs from the previous one (or the
+// configured interval has elapsed)": expired is exactly "unchanged and the interval elapsed".
+//@ func (*alertState).updateExpired
+//@   props C01 C05
+//@   requires a != nil && a.n != nil && a.n.a != nil && a.n.a.AlertNodeData != nil
+//@   modifies a.expired
+//@   ensures a.expired == (!a.changed && a.n.a.StateChangesOnlyDuration != 0
+//@       && t - a.lastTriggered >= time.Time(a.n.a.StateChangesOnlyDuration))
+
+//@ func (*alertState).addEvent
+//@   props C01 C05
+//@   requires alertStateOK(a) && 0 <= level && level <= 3
+//@   modifies a.changed, a.idx, elems(a.history), a.flapping, a.expired
+//@   ensures alertStateOK(a)
+//@   ensures a.changed == (old(a.history[a.idx]) != level)
+//@   ensures a.idx == (old(a.idx) + 1) % len(a.history) && a.history[a.idx] == level
+//@   ensures forall k int :: 0 <= k && k < len(a.history) && k != a.idx ==> a.history[k] == old(a.history[k])
+//@   ensures a.expired == (!a.changed && a.n.a.StateChangesOnlyDuration != 0
+//@       && t - a.lastTriggered >= time.Time(a.n.a.StateChangesOnlyDuration))
+//@   ensures !a.n.a.UseFlapping ==> a.flapping == old(a.flapping)
+
+// "a duration equal to the time since the ID last left OK": firstTriggered restarts when the
+// previous history entry is OK.
+//@ func (*alertState).triggered
+//@   props C01 C05
+//@   requires alertStateOK(a)
+//@   modifies a.lastTriggered, a.firstTriggered
+//@   ensures a.lastTriggered == t
+//@   ensures a.history[ite(a.idx == 0, len(a.history) - 1, a.idx - 1)] == alert.OK ==> a.firstTriggered == t
+//@   ensures a.history[ite(a.idx == 0, len(a.history) - 1, a.idx - 1)] != alert.OK ==> a.firstTriggered == old(a.firstTriggered)
+//@   loop 1
+//@     modifies nothing
+//@     invariant true
+
+// Rendering, event construction and delivery: assumed to leave the alert state machine's own
+// fields alone (templates, handlers and the alert service are outside the slice).
+//@ func (*AlertNode).renderID
+//@   trusted
+//@   modifies nothing
+//@ func (*AlertNode).event
+//@   trusted
+//@   modifies nothing
+//@ func (*AlertNode).handleEvent
+//@   trusted
+//@   modifies nothing
+//@ func (*alertState).augmentTagsWithEventState
+//@   trusted
+//@   modifies nothing
+//@ func (*alertState).augmentFieldsWithEventState
+//@   trusted
+//@   modifies nothing
+
+// The event is sent exactly when the property says, with the level, time and duration it says.
+//@ spec emitCond(a *alertState) bool =
+//@     !(a.n.a.UseFlapping && a.flapping) && !(a.n.a.IsStateChangesOnly && !a.changed && !a.expired)
+//@     && (a.history[a.idx] != alert.OK || a.changed) && !(a.n.a.NoRecoveriesFlag && a.history[a.idx] == alert.OK)
+
+//@ func (*alertState).Point
+//@   props C01 C05
+//@   requires alertStateOK(a) && p != nil
+//@   ensures !called(addEvent) ==> result1 != nil && !called(handleEvent)
+//@   ensures called(addEvent) ==> alertStateOK(a)
+//@       && int(a.history[a.idx]) == specLevel(a.n, int(old(a.history[a.idx])), p)
+//@       && a.changed == (old(a.history[a.idx]) != a.history[a.idx])
+//@       && a.idx == (old(a.idx) + 1) % len(a.history)
+//@   ensures called(handleEvent) ==> emitCond(a)
+//@   ensures called(addEvent) && emitCond(a) && result1 == nil ==> called(handleEvent)
+//@   ensures called(handleEvent) ==> callarg(event, 5) == a.history[a.idx] && callarg(event, 6) == p.Time()
+//@       && callarg(event, 7) == time.Duration(a.lastTriggered - a.firstTriggered) && a.lastTriggered == p.Time()
